@@ -148,6 +148,32 @@ def strategy(tier):
     return case_st()
 
 
+def enumerate_cases(tier):
+    """axis given as a *dataset-level position* while variables hold that dimension at another position (or not at all):
+    every along-axis operation x both dimensions x square / non-square variables"""
+    for lx, ly in (([3, 1, 2], [0.5, 2.5, 1.5]), ([3, 1], [0.5, 2.5, 1.5])):
+        dlab = {"x": lx, "y": ly}
+        variables = [["v0", {"dims": ["x", "y"], "labels": [lx, ly], "vk": "f", "base": 0, "attrs": {"units": "a"}}],
+                     ["v1", {"dims": ["y", "x"], "labels": [ly, lx], "vk": "f", "base": 20, "attrs": {"units": "b"}}],
+                     ["v2", {"dims": ["y"], "labels": [ly], "vk": "i", "base": 40, "attrs": {}}],
+                     ["v3", {"dims": [], "labels": [], "vk": "f", "base": 50, "attrs": {}}],
+                     ["v4", {"dims": ["x"], "labels": [lx], "vk": "f", "base": 60, "attrs": {}}]]
+        ds = {"vars": variables, "attrs": dict(DS_ATTRS)}
+        for d in ("x", "y"):
+            labs = dlab[d]
+            for by in ("pos", "name"):
+                ps = [("reduce", {"f": f, "by": by, "skipna": False}) for f in ("mean", "std", "var", "median", "sum")]
+                ps += [("take_axis", {"indices": [labs[-1], labs[0]], "indexing": "label", "by": by}), ("take_axis", {"indices": [1, 0, 1], "indexing": "position", "by": by}),
+                       ("sort_axis", {"by": by}),
+                       ("reindex_axis", {"new": [labs[1], labs[0] + 100, labs[0]], "fill": "nan", "raise_error": False, "method": None, "as": "list", "by": by}),
+                       ("reindex_axis", {"new": [labs[1], labs[0] + 100], "fill": -1, "raise_error": False, "method": None, "as": "axis", "by": by}),
+                       ("reindex_axis", {"new": [labs[0] + 0.25, labs[1]], "fill": "nan", "raise_error": False, "method": "left", "as": "list", "by": by}),
+                       ("reindex_axis", {"new": list(labs[::-1]), "fill": "nan", "raise_error": True, "method": None, "as": "list", "by": by}),
+                       ("interp_axis", {"new": [min(labs) - 1.0, float(labs[0]), (min(labs) + max(labs)) / 2.0, max(labs) + 1.0], "left": "nan", "right": 99.0, "by": by})]
+                for op, p in ps:
+                    yield "axis-by-dataset-position-grid", {"op": op, "ds": ds, "dsdims": ["x", "y"], "dim": d, "p": p}
+
+
 # ----------------------------------------------------------------------------------------------
 
 def relabel(spec, newlabels):
